@@ -200,10 +200,27 @@ func c04Run(j vs.Job) *vs.JobResult {
 			}
 			c04CheckTable(r, fmt.Sprintf("builtin(-e=%v)", all), t, pairs, c04Payloads(4), true)
 		}
-		// escapeWriter: any segmentation of the input gives the same stream
+		// escapeWriter: any segmentation of the input gives the same stream; blocks: the usual payloads, every
+		// 2-byte block, and every block of <= 3 bytes over an alphabet of UTF-8 lead/continuation bytes that
+		// spell well-formed characters containing protected bytes (U+008D, U+041D "Н" = d0 9d, U+00D1 = c3 91, U+E0B0 = ee 82 b0)
+		blocks := c04Payloads(3)
+		for a := 0; a < 256; a++ {
+			for b := 0; b < 256; b++ {
+				blocks = append(blocks, []byte{byte(a), byte(b)})
+			}
+		}
+		utf := []byte{0xc2, 0x8d, 0xd0, 0x9d, 0xc3, 0x91, 0xee, 0x82, 0xb0, 'x'}
+		for _, a := range utf {
+			for _, b := range utf {
+				for _, c := range utf {
+					blocks = append(blocks, []byte{a, b, c})
+				}
+			}
+		}
+		blocks = append(blocks, []byte("Привет, Наташа\n"), []byte("a\ue0b0b"), []byte("Ñ\u008d\u0090\u0091\u0093\u009d"))
 		for _, all := range []bool{false, true} {
 			t, _ := c04Builtin(all)
-			for _, x := range c04Payloads(3) {
+			for _, x := range blocks {
 				for cut := 0; cut <= len(x); cut++ {
 					var sink bytes.Buffer
 					w := newEscapeWriter(t, nopWriteCloser{&sink})
@@ -212,6 +229,9 @@ func c04Run(j vs.Job) *vs.JobResult {
 					r.Execs++
 					if !bytes.Equal(sink.Bytes(), escapeData(x, t)) {
 						r.Violate("c04:writer", fmt.Sprintf("escapeWriter(%q cut at %d) wrote %q, escapeData gives %q", x, cut, sink.Bytes(), escapeData(x, t)), nil)
+						if len(r.Violations) > 5 {
+							return r
+						}
 					}
 				}
 			}
@@ -353,7 +373,7 @@ func c04Run(j vs.Job) *vs.JobResult {
 	case "world":
 		// wire monitor: nothing the uploading client writes after its ACT contains a protected byte
 		for _, esc := range []bool{false, true} {
-			for _, tree := range []string{"one:E:3079", "small3", "one:R:21000"} {
+			for _, tree := range []string{"one:E:3079", "small3", "one:R:21000", "one:U:300", "one:U:3000"} {
 				for _, comp := range []int{0, 1, 2} {
 					for _, proto := range []int{0, 3, 2, 1} {
 						wp := wParams{Dir: "up", Binary: true, EscapeAll: esc, Tree: tree, Compress: comp, Protocol: proto}
